@@ -168,6 +168,68 @@ func (p *envParser) val(fam *helperFamily) (interface{}, error) {
 			}
 		}
 		return m, nil
+	case 'S':
+		ty, err := p.hex()
+		if err != nil {
+			return nil, err
+		}
+		if p.next() != '{' {
+			return nil, fmt.Errorf("struct")
+		}
+		var names []string
+		var vals []interface{}
+		if p.peek() == '}' {
+			p.i++
+		} else {
+			for {
+				k, err := p.hex()
+				if err != nil {
+					return nil, err
+				}
+				if p.next() != ':' {
+					return nil, fmt.Errorf("struct colon")
+				}
+				v, err := p.val(fam)
+				if err != nil {
+					return nil, err
+				}
+				names = append(names, k)
+				vals = append(vals, v)
+				d := p.next()
+				if d == '}' {
+					break
+				}
+				if d != ',' {
+					return nil, fmt.Errorf("struct sep")
+				}
+			}
+		}
+		return structFromDesc(ty, names, vals)
+	case 'P':
+		if _, err := p.hex(); err != nil {
+			return nil, err
+		}
+		if p.next() != '&' {
+			return nil, fmt.Errorf("pointer")
+		}
+		v, err := p.val(fam)
+		if err != nil {
+			return nil, err
+		}
+		if v == nil {
+			return nil, fmt.Errorf("pointer to nil")
+		}
+		return ptrTo(v), nil
+	case 'Q':
+		ty, err := p.hex()
+		if err != nil {
+			return nil, err
+		}
+		v, ok := rgNilPtrs[ty]
+		if !ok {
+			return nil, fmt.Errorf("unknown pointer type %q", ty)
+		}
+		return v, nil
 	default:
 		return nil, fmt.Errorf("bad value tag %q", c)
 	}
